@@ -40,6 +40,7 @@ type rawPeer struct {
 	fd   int
 
 	memfd      bool
+	frag       int   // >0: every message is written in pieces of this many bytes with a short pause in between (a stream transport may deliver that way)
 	version    uint8 // version stamped on the events this peer sends
 	announce   uint8 // client role: version announced in the first message (0: the usual one, 3 resp. 2 for c2f)
 	queuePath  string
@@ -383,6 +384,21 @@ func (r *rawPeer) send(data []byte) error {
 	}
 	r.wmu.Lock()
 	defer r.wmu.Unlock()
+	if r.frag > 0 {
+		for off := 0; off < len(data); {
+			end := off + r.frag
+			if end > len(data) {
+				end = len(data)
+			}
+			n, err := unix.Write(r.fd, data[off:end])
+			if err != nil {
+				return err
+			}
+			off += n
+			time.Sleep(200 * time.Microsecond)
+		}
+		return nil
+	}
 	return blockWriteFull(r.fd, data)
 }
 
